@@ -318,7 +318,7 @@ func (c *Coordinator) alleviateShardHeadSeries(s *shardInfo, changeAbleShards []
 			continue
 		}
 
-		if tar.Series > c.option.MaxHeadSeries {
+		if tar.Series > c.option.MaxHeadSeries || tar.TotalSeries > c.option.MaxProcessSeries {
 			c.log.Warnf("too big series [%d] series is [%d], skip alleviate", hash, tar.Series)
 			return 0
 		}
@@ -329,7 +329,8 @@ func (c *Coordinator) alleviateShardHeadSeries(s *shardInfo, changeAbleShards []
 				continue
 			}
 
-			if os.runtime.HeadSeries+tar.Series < c.option.MaxHeadSeries {
+			if os.runtime.HeadSeries+tar.Series < c.option.MaxHeadSeries &&
+				os.runtime.ProcessSeries+tar.TotalSeries < c.option.MaxProcessSeries {
 				c.log.Infof("need transfer target %d, from %s to %s series = (%d) ", hash, s.shard.ID, os.shard.ID, tar.Series)
 				transferTarget(s, os, hash)
 				total -= tar.Series
